@@ -55,7 +55,8 @@ def hist_behaviours(ctx):
 
 def tl_files(files):
     """tlaval's view of a token-level file set -> the JSON shape of the vectors."""
-    return [{'id': f['id'], 'build': f['build'], 'week': f['week'], 'counts': [dict(n=c['n'], v=c['v']) for c in f['counts']]} for f in files]
+    return [{'id': f['id'], 'build': f['build'], 'week': f['week'], 'expired': f.get('expired', True),
+             'counts': [dict(n=c['n'], v=c['v']) for c in f['counts']]} for f in files]
 
 
 def viol(ctx, sig, detail, text):
@@ -134,9 +135,25 @@ def leak_scan(ctx, req, local, allowed_data, allowed_progs, files, detail):
     return True
 
 
-def week_expect(wk):
-    return {'up3': A.tdata(wk['up3']), 'up5': A.tdata(wk['up5']), 'b3': set(A.btuple(b) for b in wk['b3']),
-            'b5': set(A.btuple(b) for b in wk['b5']), 'local': A.tdata(wk['local'])}
+def week_expect(wk, scale=0):
+    return {'up3': A.tdata(wk['up3'], scale), 'up5': A.tdata(wk['up5'], scale), 'b3': set(A.btuple(b) for b in wk['b3']),
+            'b5': set(A.btuple(b) for b in wk['b5']), 'local': A.tdata(wk['local'], scale)}
+
+
+def nonzero(s):
+    return set(t for t in s if t[2] != 0)
+
+
+def zeros_apart(ctx, what, got, *wants):
+    """A counter that is present with value 0: the statement's "present locally"
+    is not explicit about it, so a disagreement on zero-valued counters alone is
+    a divergence, not a violation.  Returns got without its zero-valued triples."""
+    gz = got - nonzero(got)
+    if wants and all(gz != (w - nonzero(w)) for w in wants):
+        ctx.warn('MODEL-DIVERGENCE %s: zero-valued counters %s, the specification includes %s' % (
+            what, sorted(n for (_b, n, _v) in gz), sorted(n for (_b, n, _v) in wants[0] - nonzero(wants[0]))))
+        ctx.cov['divergences'] += 1
+    return nonzero(got)
 
 
 def xnum(x, d):
@@ -153,8 +170,8 @@ def check_vector(ctx, v, rec, later):
     to the X it carries itself ("the report's random X"), for which TLC gave the
     demanded outputs.  `later`: list collecting observations to be decided by
     ApprovalTrace instead (the report's X is none of the injected ones)."""
-    d, cfg = v['d'], v['cfg']
-    detail = {'vector': {'fam': v['fam'], 'cfg': cfg, 'files': v['files'], 'xs': v['xs'], 'd': d}}
+    d, cfg, scale = v['d'], v['cfg'], v.get('scale', 0)
+    detail = {'vector': {'fam': v['fam'], 'cfg': cfg, 'files': v['files'], 'xs': v['xs'], 'd': d, 'value_scale': scale}}
     good = True
     if rec.get('err'):
         viol(ctx, '%s:run:%s' % (P, rec['err'].split(':')[0]), dict(detail, err=rec['err']), 'upload.Run: ' + rec['err'])
@@ -180,8 +197,8 @@ def check_vector(ctx, v, rec, later):
         if q is None:
             # the X of this week's report is the one its local copy carries
             wk = byx.get(lx, any_wk)
-            exp = week_expect(wk)
-            if wk['mustsend'] and exp['up5'] and exp['up3']:
+            exp = week_expect(wk, scale)
+            if wk['mustsend'] and nonzero(exp['up5']) and nonzero(exp['up3']):
                 viol(ctx, '%s:upload:no-report-although-approved-data' % P, dict(det, expected=sorted(exp['up5']), X=wk['x'] / d),
                      'no report was posted for %s although approved data with rate >= X exists and X lies below the sampling rate' % date)
                 good = False
@@ -197,9 +214,12 @@ def check_vector(ctx, v, rec, later):
             if bx not in byx:
                 later.append((v, any_wk, body))
             else:
-                exp = week_expect(byx[bx])
+                exp = week_expect(byx[bx], scale)
+                allowed = exp['up3'] | exp['up5']
+                body.data = zeros_apart(ctx, 'report for %s' % date, body.data, exp['up3'], exp['up5'])
+                exp['up3'], exp['up5'] = nonzero(exp['up3']), nonzero(exp['up5'])
                 good &= report_diff(ctx, 'upload', cfg, d, bx, exp, body, dict(det, local_report_X=None if lb is None else lb.x, draws=rec.get('draws')))
-                good &= leak_scan(ctx, q, exp['local'], exp['up3'] | exp['up5'], exp['b3'] | exp['b5'], v['files'], det)
+                good &= leak_scan(ctx, q, exp['local'], allowed, exp['b3'] | exp['b5'], v['files'], det)
             if lb is not None and lb.x != body.x:
                 # one weekly report, one X: not a clause of the statement by itself (the filter
                 # relative to the posted X is what decides), recorded as a divergence
@@ -211,7 +231,10 @@ def check_vector(ctx, v, rec, later):
                 viol(ctx, '%s:upload:kept-copy-differs-from-posted-body' % P, dict(det, kept=kept, body=q['body']),
                      'upload/%s.json differs from the body that was posted' % date)
                 good = False
-        exp_local = A.tdata(any_wk['local'])
+        exp_local = A.tdata(any_wk['local'], scale)
+        if lb is not None:
+            lb.data = zeros_apart(ctx, 'local.%s.json' % date, lb.data, exp_local)
+        exp_local = nonzero(exp_local)
         if lb is None:
             if exp_local:
                 ctx.warn('no local.%s.json after the run of vector %s' % (date, v['fam']))
@@ -232,7 +255,10 @@ def run(ctx):
         'configurations outside the domain of the statement are not generated: a program listed twice, the same expanded counter name or stack name listed twice for a program, '
         'counter entries that are not <plain name> or <chart>:{<bucket>,...} with non-empty buckets, stack entries containing a newline',
         'C01 approves builds on program/version/Go version; a report that additionally drops builds whose GOOS/GOARCH the configuration does not list (the reading of C11) is accepted too',
-        'counter values are >= 1 and weekly sums stay below 2^31 (TLC integers)',
+        'weekly sums stay below 2^31 inside TLC; the sums family is additionally run with every value multiplied by 2^20, 2^40, 2^58 (sums are linear), sums stay below 2^63 (int64 report field)',
+        'a counter present with value 0: "present locally" is not explicit about it, a disagreement on zero-valued counters alone is a MODEL-DIVERGENCE warning',
+        'names with bytes that are not UTF-8 carry them in the first line only (never approved: configuration names are JSON strings); local.<week>.json is compared through the U+FFFD rendering of encoding/json',
+        'files that are still active have their end three days after the start time (expiry arithmetic at the boundary belongs to C09)',
         'stack frames avoid the ditto form (a line whose package path is a double quote) so that counter.DecodeStack is the identity (C15 covers it)',
         'whether a report is sent at all depends on the sampling rate, about which the statement is silent: a missing report is reported only when approved data with rate >= X exists and SampleRate = 1 or X < SampleRate (no reading of "sample rate" drops such a report); a report that IS sent is always checked',
         'mode file "on 2000-01-01", all expiry dates within 21 days before the start time (consent and age gating belong to C02)',
@@ -246,7 +272,7 @@ def run(ctx):
     ctx.log('vectors:', len(vecs))
     cases = []
     for i, v in enumerate(vecs):
-        cases.append({'id': i, 'steps': [A.step_of(v['cfg'], v['d'], v['files'], v['x'], xs=v['xs'])]})
+        cases.append({'id': i, 'steps': [A.step_of(v['cfg'], v['d'], v['files'], v['x'], xs=v['xs'], scale=v.get('scale', 0))]})
     nvec = len(cases)
 
     # ---- 2. model -> code: histories with leftover reports ----------------------------
@@ -259,7 +285,8 @@ def run(ctx):
 
     # ---- 3. code -> model: random configurations / file sets ---------------------------
     nrand = ctx.pick(400, 6000)
-    rcases = [A.rand_case(rng, A.D_RND) for _ in range(nrand)]
+    nbig = ctx.pick(3, 40)
+    rcases = [A.rand_case(rng, A.D_RND, raw_bytes=True, big=k < nbig) for k in range(nrand)]
     for k, c in enumerate(rcases):
         cases.append({'id': nvec + nhist + k, 'steps': [A.step_of(c['cfg'], A.D_RND, c['files'], c['x'], xs=c['xs'])]})
 
@@ -465,7 +492,9 @@ def observe_random(ctx, c, rec):
                 ctx.cov['divergences'] += 1
         out.append(o)
         if lb is not None:
-            out.append({'kind': 'local', 'files': afiles, 'w': w, 'data': A.abs_data(lb.data), '_body': lb})
+            # the local report went through encoding/json: invalid bytes of a name read U+FFFD
+            lfiles = A.abs_files(A.coerced_files(c['files'])) if any(A.has_raw_bytes(cn['n']) for f in c['files'] for cn in f['counts']) else afiles
+            out.append({'kind': 'local', 'files': lfiles, 'w': w, 'data': A.abs_data(lb.data), '_body': lb})
     for o in out:
         o.pop('_body', None)
     return out
